@@ -188,8 +188,10 @@ overload_op::next (scon &sc) const
   state &st = sc.get <state> (m_ll);
   while (true)
     {
+      DWGREP_VERIF_STEP ();
       while (st.m_sg == nonstd::nullopt)
 	{
+	  DWGREP_VERIF_STEP ();
 	  if (auto stk = m_upstream->next (sc))
 	    {
 	      auto ovl = m_ovl_inst.find_exec (*stk);
